@@ -176,6 +176,17 @@ pub fn run(ctx: &RunCtx, caps: bool) -> Outcome {
             return o;
         }
     }
+    // wide patterns: 8..37 groups (two-digit group numbers, save slots beyond 64), offset 0
+    if o.violations.is_empty() {
+        let wp = DiffRef { only_pos0: true, ..prop(caps) };
+        let t0 = std::time::Instant::now();
+        let wcases = if quick { 30_000 } else { 400_000 };
+        let wtexts = gen::wide_texts();
+        let (st, found) = explore_random_with(ctx, &wp, "wide patterns", &wtexts, wcases, &|bytes| Some(gen::decode_wide(bytes)));
+        o.generators.push(json!({"mode": "random(proptest bytes -> 8..37 groups in a row, wrapped, with a tail reading one group back)", "name": "wide patterns", "cases": wcases, "texts": wtexts.len(), "evaluations": st.evaluations, "seed": ctx.seed, "wall_s": t0.elapsed().as_secs_f64()}));
+        let v = found.map(|f| finish(ctx, &wp, f));
+        o.absorb(st, v);
+    }
     if !quick && o.violations.is_empty() {
         // the target compares all groups; for C01 only span / existence failures are violations of C01
         super::api::fuzz_stage(ctx, &mut o, &prop(true), "fuzz_diff", crate::fuzzdec::run_diff);
